@@ -194,7 +194,7 @@ func modeTrace(self, out string, n int, seed int64, replay *job) error {
 
 // ---- C03 -----------------------------------------------------------------------
 
-var killScripts = []string{"basic", "backlog", "ckpttrunc", "followstart", "restorev3", "reset", "resetfetch", "republish", "retention", "baseline", "rerestore", "checkpoint", "follow", "sidecar"}
+var killScripts = []string{"basic", "backlog", "ckpttrunc", "followstart", "restorev3", "reset", "resetfetch", "republish", "retention", "backloggate", "baseline", "rerestore", "checkpoint", "follow", "sidecar"}
 
 var dense = map[string]bool{"followstart": true, "restorev3": true, "backlog": true}
 
@@ -435,6 +435,17 @@ func modeKill(self, out string, n int, seed int64, kstep, points int, replay *jo
 			base, rec := bases[i], recs[i]
 			if rerrs[i] != nil {
 				return rerrs[i]
+			}
+			if base.Script == "backloggate" {
+				// no kill points: the script kills itself at the interleaving it waits for (or runs to its end);
+				// the run is made once more as a job and inspected like any killed run
+				if rec.exit != 0 && !rec.killed {
+					return fmt.Errorf("recording run of %s failed: %s", base.Script, tail(rec.stderr, 400))
+				}
+				_ = os.RemoveAll(rec.dir)
+				kTotals[fmt.Sprintf("%s#%d", base.Script, i)] = 0
+				jobs = append(jobs, base)
+				continue
 			}
 			if rec.exit != 0 {
 				return fmt.Errorf("recording run of %s failed: %s", base.Script, tail(rec.stderr, 400))
